@@ -314,10 +314,39 @@ pub fn c04_native<G: AffineRepr + 'static>(case: &C04Case, seed: u64) -> Vec<(St
     all.push(FieldId::A);
     all.push(FieldId::B);
     let d = G::ScalarField::from(seed + 2);
+    // the same altered object presented to batch verification, alone and next to the untouched proof (either order)
+    let batch_rejects = |t: &R1CSProof<G>| -> bool {
+        let mut all_rejected = true;
+        for order in 0..3 {
+            let members: Vec<&R1CSProof<G>> = match order {
+                0 => vec![t],
+                1 => vec![&proof, t],
+                _ => vec![t, &proof],
+            };
+            let forks: Vec<_> = members.iter().map(|_| fork_for_verifier(shape, &shr)).collect();
+            let mut ts: Vec<merlin::Transcript> = members.iter().map(|_| new_verifier_transcript(shape)).collect();
+            let mut insts = vec![];
+            for (i, vt) in ts.iter_mut().enumerate() {
+                insts.push((build_verifier(shape, &forks[i], vt), members[i]));
+            }
+            let mut wr = rand_chacha::ChaChaRng::seed_from_u64(seed ^ 0xba7d);
+            all_rejected &= batch_verify(&mut wr, insts, &pc, &bp).is_err();
+        }
+        all_rejected
+    };
     for f in all.iter() {
         let np: G = G::Group::rand(&mut rng).into_affine();
         let t = tamper(&proof, f, Some(np), d);
         out.push((format!("{} replaced / shifted: rejected", f.name()), !verify(&t)));
+        out.push((format!("{} replaced / shifted: rejected by batch verification (alone, after and before the untouched proof)", f.name()), batch_rejects(&t)));
+        if get_point(&proof, f).is_some() {
+            // the identity in a point slot (a structurally invalid object for most slots)
+            let t0 = tamper(&proof, f, Some(G::zero()), d);
+            if get_point(&proof, f).map(|o| !o.is_zero()).unwrap_or(false) {
+                out.push((format!("{} replaced by the identity: rejected", f.name()), !verify(&t0)));
+                out.push((format!("{} replaced by the identity: rejected by batch verification", f.name()), batch_rejects(&t0)));
+            }
+        }
         if let Some(old) = get_point(&proof, f) {
             if !old.is_zero() {
                 let neg: G = (-old.into_group()).into_affine();
@@ -333,9 +362,13 @@ pub fn c04_native<G: AffineRepr + 'static>(case: &C04Case, seed: u64) -> Vec<(St
         let (mut l2, mut r2) = (l.to_vec(), r.to_vec());
         l2.push(extra);
         r2.push(extra);
-        out.push(("inserted round: rejected".into(), !verify(&R1CSProof::verif_from_parts(pts, scs, InnerProductProof::verif_from_parts(l2, r2, a, b)))));
+        let ins = R1CSProof::verif_from_parts(pts, scs, InnerProductProof::verif_from_parts(l2, r2, a, b));
+        out.push(("inserted round: rejected".into(), !verify(&ins)));
+        out.push(("inserted round: rejected by batch verification".into(), batch_rejects(&ins)));
         if !l.is_empty() {
-            out.push(("removed round: rejected".into(), !verify(&R1CSProof::verif_from_parts(pts, scs, InnerProductProof::verif_from_parts(l[1..].to_vec(), r[1..].to_vec(), a, b)))));
+            let rem = R1CSProof::verif_from_parts(pts, scs, InnerProductProof::verif_from_parts(l[1..].to_vec(), r[1..].to_vec(), a, b));
+            out.push(("removed round: rejected".into(), !verify(&rem)));
+            out.push(("removed round: rejected by batch verification".into(), batch_rejects(&rem)));
         }
     }
     // altered copies whose defects are opposite must not cancel in a batch either
@@ -433,6 +466,14 @@ pub fn c04_cases(thorough: bool) -> Vec<C04Case> {
     add(&one, FieldId::Point(6));
     add(&one, FieldId::Scalar(1));
     add(&one, FieldId::Scalar(2));
+    // no multiplication gate at all (honest a = 0, b = -1, t_x = 0): the final scalars are still bound
+    let zero = Shape::new("zero_gates", &[Commit, Commit, ConCommitted], &[]);
+    add(&zero, FieldId::A);
+    add(&zero, FieldId::B);
+    add(&zero, FieldId::Scalar(0));
+    let zero2 = Shape::new("zero_gates_two_phase", &[Commit, Commit], &[&[Chal, ConCommitted]]);
+    add(&zero2, FieldId::A);
+    add(&zero2, FieldId::B);
     let four_q = Shape::new("three_gates_pad4", &[Commit, AllocMul, AllocMul, Mul, Con], &[]);
     add(&four_q, FieldId::R(0));
     add(&four_q, FieldId::L(1));
